@@ -34,6 +34,7 @@ PENDING, UNKNOWN, PROMOTED = 0, 1, 2
 
 # reduced alphabet for the exhaustively enumerated prefix of the seed space
 ENUM_OPS = ([['rc', c] for c in SMALL] + [['rn', c] for c in SMALL] + [['pr', c, False] for c in SMALL] +
+            [['pr', c, 'list2'] for c in SMALL] +
             [['ir', c, list(f)] for c in SMALL for f in FLAGS] + [['rp', 'B'], ['rp', 'A']])
 ENUM_LEN = {'quick': 3, 'thorough': 4}
 RULE = ('run index < K enumerates ALL histories of length <= 3 (thorough: 4) over a reduced alphabet of %d '
@@ -159,6 +160,27 @@ class Model:
         return res
 
 
+# ways an instance reaches the printer: bare, or as an element of a bundled container
+NEST_TEXT = {False: '%s', None: '%s', True: '[%s]', 'list2': '[%s, %s]', 'tuple2': '(%s, 1)',
+             'dictval': "{'k': %s}", 'deep': '[[%s], %s]'}
+
+
+def _nest(form, c):
+    if not form:
+        return c()
+    if form is True:
+        return [c()]
+    if form == 'list2':
+        return [c(), c()]
+    if form == 'tuple2':
+        return (c(), 1)
+    if form == 'dictval':
+        return {'k': c()}
+    if form == 'deep':
+        return [[c()], c()]
+    raise core.HarnessError('bad nesting %r' % (form,))
+
+
 def key(c):
     return c.__module__ + '.' + c.__qualname__
 
@@ -205,7 +227,7 @@ def generate(rng, idx, tier):
         elif k == 'rp':
             ops.append(['rp', c if rng.random() < 0.8 else None, tag, 'fresh' if rng.random() < 0.4 else 'shared'])
         elif k == 'pr':
-            ops.append(['pr', c, rng.random() < 0.3])
+            ops.append(['pr', c, rng.choice([False, False, False, True, 'list2', 'tuple2', 'dictval', 'deep'])])
         elif k == 'ir':
             if rng.random() < 0.05:
                 ops.append(['ir', c, [rng.random() < 0.5, False, True]])
@@ -288,12 +310,11 @@ def execute(spec):
             nested = op[2]
             exp = m.tag(c)
             try:
-                got = pformat([c()]) if nested else pformat(c())
+                got = pformat(_nest(nested, c))
             except Exception as e:
                 trace.append(op + ['RAISED ' + repr(e)])
                 return fail('print_raised', type(e).__name__, op=op)
-            if nested:
-                exp = '[%s]' % exp
+            exp = NEST_TEXT[nested] % ((exp,) * NEST_TEXT[nested].count('%s'))
             m.after_print(c)
             trace.append(op + [got])
             if registered:
